@@ -161,20 +161,34 @@ func setOf(u *universe, store memStore, owner byte, ns *trienode.NodeSet) gset {
 	if ns == nil {
 		return g
 	}
+	var paths []string
 	for p, n := range ns.Nodes {
-		if n.IsDeleted() {
-			continue
+		if !n.IsDeleted() {
+			paths = append(paths, p)
 		}
+	}
+	sort.Sort(sort.Reverse(sort.StringSlice(paths)))
+	for _, p := range paths {
+		n := ns.Nodes[p]
 		store[n.Hash] = n.Blob
 		g.nodes = append(g.nodes, pathNode{p, u.add(n.Blob)})
 	}
-	sort.Slice(g.nodes, func(i, j int) bool { return g.nodes[i].path > g.nodes[j].path })
 	for _, l := range ns.Leaves {
 		var a types.StateAccount
 		if rlp.DecodeBytes(l.Blob, &a) == nil && a.Root != types.EmptyRootHash {
+			if _, ok := u.ids[a.Root]; !ok {
+				panic("storage root never seen")
+			}
 			g.leaves = append(g.leaves, [2]int{u.id(l.Parent), u.id(a.Root)})
 		}
 	}
+	// the committer collects leaves concurrently for large tries: fix the order
+	sort.Slice(g.leaves, func(i, j int) bool {
+		if g.leaves[i][0] != g.leaves[j][0] {
+			return g.leaves[i][0] < g.leaves[j][0]
+		}
+		return g.leaves[i][1] < g.leaves[j][1]
+	})
 	return g
 }
 
@@ -434,7 +448,11 @@ func (s *synth) update(r *Rng, ids []int, adv bool) {
 	}
 	if adv && r.Chance(1, 3) {
 		n := len(s.kids)
-		acc.leaves = append(acc.leaves, [2]int{1 + r.Intn(n), 1 + r.Intn(n)})
+		// invented reference; child id < parent id keeps the graph acyclic (a cycle makes the
+		// real commit/dereference recurse until the Go stack overflows, which cannot be caught)
+		if p := 1 + r.Intn(n); p > 1 {
+			acc.leaves = append(acc.leaves, [2]int{p, 1 + r.Intn(p-1)})
+		}
 	}
 	s.ops = append(s.ops, updateOp(sets))
 }
@@ -454,8 +472,8 @@ func genSynth(r *Rng, cns int64, steps int, adv bool) Sx {
 		switch {
 		case adv && r.Chance(1, 3):
 			ids = append(ids, fresh...)
-			if r.Chance(1, 2) {
-				ids = append(ids, 1+r.Intn(len(s.kids)))
+			if x := 1 + r.Intn(len(s.kids)); r.Chance(1, 2) && s.u.known[x-1] && x < fresh[0] {
+				ids = append(ids, x)
 			}
 			sort.Ints(ids)
 		default:
@@ -501,7 +519,8 @@ func genSynth(r *Rng, cns int64, steps int, adv bool) Sx {
 			case 0:
 				s.ops = append(s.ops, L(I(2), I(int64(r.Intn(n+1))))) // unmatched / zero dereference
 			case 1:
-				s.ops = append(s.ops, L(I(1), I(int64(r.Intn(n+1))), I(int64(r.Intn(n+1))))) // raw Reference
+				p := r.Intn(n + 1) // raw Reference, child id < parent id (acyclic) or parent 0
+				s.ops = append(s.ops, L(I(1), I(int64(r.Intn(max(p, 1)))), I(int64(p))))
 			case 2:
 				s.ops = append(s.ops, L(I(4), I(int64(r.Intn(n+1)))))
 			case 3:
@@ -614,13 +633,21 @@ func (w white) sx(cd *caseData, size float64) Sx {
 				ex = append(ex, int(cd.idOf(c)))
 			}
 			sort.Ints(ex)
-			nodes = append(nodes, L(I(int64(i)), U(uint64(x.Parents)), ints(ex), I(cd.idOf(x.FlushPrev)), I(cd.idOf(x.FlushNext))))
+			prev := cd.idOf(x.FlushPrev)
+			if x.Hash == w.oldest {
+				prev = 0 // stale by design, never read by the code
+			}
+			nodes = append(nodes, L(I(int64(i)), U(uint64(x.Parents)), ints(ex), I(prev), I(cd.idOf(x.FlushNext))))
 		}
 		if w.disk[i] {
 			disk = append(disk, I(int64(i)))
 		}
 	}
-	return L(I(0), I(cd.idOf(w.oldest)), I(cd.idOf(w.newest)), I(int64(w.ds)), I(int64(w.cs)), I(int64(size)), nodes, disk)
+	newest := cd.idOf(w.newest)
+	if w.oldest == (common.Hash{}) {
+		newest = 0 // stale when the list is empty
+	}
+	return L(I(0), I(cd.idOf(w.oldest)), I(newest), I(int64(w.ds)), I(int64(w.cs)), I(int64(size)), nodes, disk)
 }
 
 func run(c Sx) Result {
@@ -883,7 +910,7 @@ func run(c Sx) Result {
 			}
 			break
 		}
-		_, _, sz := tdb.Size()
+		_, sz, _ := tdb.Size()
 		w := snapshot(cd, hdb, disk)
 		obs = append(obs, w.sx(cd, float64(sz)))
 		if len(w.nodes) < len(before.nodes) {
